@@ -84,7 +84,10 @@ enum class expect
   uint_
 };
 
-template <class Ch, class Parser> void run(char const *gname, Parser const &parser, expect ex = expect::none)
+// accept: the language of the grammar where it is obvious (parse_string must succeed exactly on it)
+using accept_fn = bool (*)(std::string const &);
+
+template <class Ch, class Parser> void run(char const *gname, Parser const &parser, expect ex = expect::none, accept_fn accept = nullptr)
 {
   char const *const chn = std::is_same_v<Ch, char> ? "char" : "wchar_t";
   entry e_p(std::string("parse::parse_string<") + chn + ">(" + gname + ")");
@@ -101,6 +104,11 @@ template <class Ch, class Parser> void run(char const *gname, Parser const &pars
         VRT_CHECK(r.has_success() != r.has_failure(), e_p.name + ":either", "neither success nor failure");
         if (r.has_success())
           vrt::count("parse successes");
+        if (accept)
+        {
+          bool const ok = accept(s);
+          VRT_CHECK(r.has_success() == ok, e_p.name + (ok ? ":missing" : ":spurious"), "has_success=%d", (int)r.has_success());
+        }
         if constexpr (std::is_same_v<p::result_of<Parser>, int>)
         {
           if (ex == expect::int_)
@@ -139,6 +147,45 @@ template <class Ch, class Parser> void run(char const *gname, Parser const &pars
   }
 }
 
+// hand-written matchers for the small languages
+bool m_not_dash_char(std::string const &s) { return s.size() == 1 && s[0] != '-'; }
+bool m_only_a(std::string const &s) { return s == "a"; }
+bool m_any(std::string const &) { return true; }
+bool m_a1_opt_dash(std::string const &s) { return s == "a1" || s == "a1-"; }
+bool m_a_opt1_star(std::string const &s) // (a1?)*
+{
+  std::size_t i = 0;
+  while (i < s.size())
+  {
+    if (s[i] != 'a')
+      return false;
+    ++i;
+    if (i < s.size() && s[i] == '1')
+      ++i;
+  }
+  return true;
+}
+bool m_a1_star_a(std::string const &s) // (a1)*a
+{
+  if (s.size() % 2 == 0)
+    return false;
+  for (std::size_t i = 0; i < s.size(); ++i)
+    if (s[i] != (i % 2 == 0 ? 'a' : '1'))
+      return false;
+  return true;
+}
+bool m_a1plus_dashes(std::string const &s) // [a1]+-*
+{
+  std::size_t i = 0;
+  while (i < s.size() && (s[i] == 'a' || s[i] == '1'))
+    ++i;
+  if (i == 0)
+    return false;
+  while (i < s.size() && s[i] == '-')
+    ++i;
+  return i == s.size();
+}
+
 void grammars_a()
 {
   run<char>("int_<int>", p::int_<int>{}, expect::int_);
@@ -154,17 +201,18 @@ void grammars_a()
 void grammars_b()
 {
   run<char>("int_ | literal a | char_", p::int_<int>{} | p::literal{'a'} | p::char_{});
-  run<char>("!literal - >> char_", !p::literal{'-'} >> p::char_{});
-  run<char>("fatal(literal a) | char_", p::make_fatal(p::literal{'a'}) | p::char_{});
-  run<char>("lexeme(*char_)", p::make_lexeme(*p::char_{}));
-  run<char>("string a1 >> -string -", p::string{std::string{"a1"}} >> -p::string{std::string{"-"}});
+  run<char>("!literal - >> char_", !p::literal{'-'} >> p::char_{}, expect::none, m_not_dash_char);
+  run<char>("fatal(literal a) | char_", p::make_fatal(p::literal{'a'}) | p::char_{}, expect::none, m_only_a);
+  run<char>("lexeme(*char_)", p::make_lexeme(*p::char_{}), expect::none, m_any);
+  run<char>("string a1 >> -string -", p::string{std::string{"a1"}} >> -p::string{std::string{"-"}}, expect::none, m_a1_opt_dash);
   run<char>("named(int_)", p::named{p::int_<int>{}, std::string{"int"}});
 }
 
 void grammars_c()
 {
-  run<char>("*(literal a >> -literal 1)", *(p::literal{'a'} >> -p::literal{'1'}));
-  run<char>("+char_set{a,1} >> *literal -", +p::char_set{'a', '1'} >> *p::literal{'-'});
+  run<char>("*(literal a >> -literal 1)", *(p::literal{'a'} >> -p::literal{'1'}), expect::none, m_a_opt1_star);
+  run<char>("*(literal a >> literal 1) >> literal a", *(p::literal{'a'} >> p::literal{'1'}) >> p::literal{'a'}, expect::none, m_a1_star_a);
+  run<char>("+char_set{a,1} >> *literal -", +p::char_set{'a', '1'} >> *p::literal{'-'}, expect::none, m_a1plus_dashes);
   run<char>("separator(+~char_set{ }, literal ' ')", p::separator{+~p::char_set{' '}, p::literal{' '}});
   run<char>("separator(int_, literal -)", p::separator{p::int_<int>{}, p::literal{'-'}});
   run<char>("list(literal -, fatal(~char_set{ ,-}), literal ' ', literal -)",
